@@ -49,6 +49,20 @@ DEFAULTS = {'int': 3, 'str': 'd', 'float': 2.5}
 _BOX: t.List[t.Any] = []
 
 
+_SIDE: t.List[t.Any] = []
+SV = t.TypeVar('SV')
+
+
+def side() -> t.Any:
+    """A second generic pane dataclass, used as a *sibling base*: class L(Main[...], SideGen[X]) inherits the keyword-only field side_f: X."""
+    if not _SIDE:
+        import pane
+        import types as _types
+        _SIDE.append(_types.new_class('SideGen', (pane.PaneBase, t.Generic[SV]), {},
+                                      lambda ns: ns.update({'__annotations__': {'side_f': SV}, 'side_f': pane.field(default=None, kw_only=True)})))
+    return _SIDE[0]
+
+
 def box() -> t.Any:
     """A generic pane dataclass used as a *field type* of the generated classes: Box[X] holds one X."""
     if not _BOX:
@@ -242,6 +256,15 @@ def programs(draw) -> t.Any:
             else:
                 lv['base_args'] = None
                 lv['generic'] = None
+        if i > 0 and not any(l_.get('side') for l_ in levels) and draw(st.integers(0, 3)) == 3:
+            # a second generic pane base next to the main one; its argument may be a variable the main base has just bound
+            sa = draw(st.one_of(leaf_c, st.sampled_from(['T', 'U', 'V']).map(lambda n: ('v', n))))
+            lv['side'] = sa
+            for v in ast_vars(sa):
+                if lv.get('generic') is not None and v not in lv['generic']:
+                    lv['generic'] = [*lv['generic'], v]
+                if v not in params:
+                    params = [*params, v]
         # options
         if draw(st.integers(0, 2)) == 2:
             lay = draw(st.sampled_from([['tuple', 'struct'], ['struct'], ['tuple']]))
@@ -315,6 +338,10 @@ class Model:
                         if v not in free:
                             free.append(v)
                 self.params = free
+            if lv.get('side') is not None:
+                # fields are gathered base-most first and the sibling base sits behind the main chain in the MRO: its field leads
+                self.fields = {'side_f': {'type': lv['side'], 'default': ['value', None], 'kw_only': True}, **self.fields}
+                self.params = self.params + [v for v in ast_vars(lv['side']) if v not in self.params]
             if lv.get('generic') is not None:
                 g = list(lv['generic'])
                 self.params = g + [p for p in self.params if p not in g]
@@ -398,9 +425,11 @@ def build(prog: t.Dict[str, t.Any]) -> t.List[t.Any]:
             args = tuple(ast_build(a) for a in lv['base_args'])
             base = prev[args if len(args) > 1 else args[0]]
         bases: t.Tuple[t.Any, ...] = (base,)
+        if lv.get('side') is not None:
+            bases = (base, side()[ast_build(lv['side'])])
         if lv.get('mixin'):
             mix = type(f"Mixin{i}", (), {'describe': _Mixin.describe})     # one plain class per level (no MRO conflicts)
-            bases = (mix, base) if lv['mixin'] == 'first' else (base, mix)
+            bases = (mix, *bases) if lv['mixin'] == 'first' else (*bases, mix)
         if lv.get('generic'):
             bases = (*bases, t.Generic[tuple(VARS[v] for v in lv['generic'])])  # type: ignore
         ann: t.Dict[str, t.Any] = {}
@@ -441,6 +470,8 @@ def render(prog: t.Any) -> t.Any:
         base = 'PaneBase' if i == 0 else f"L{i - 1}"
         if lv.get('base_args') is not None:
             base += '[' + ', '.join(ast_render(a) for a in lv['base_args']) + ']'
+        if lv.get('side') is not None:
+            base += f", SideGen[{ast_render(lv['side'])}]"
         if lv.get('mixin'):
             base = f"Mixin, {base}" if lv['mixin'] == 'first' else f"{base}, Mixin"
         if lv.get('generic'):
